@@ -105,7 +105,8 @@ static EvtStore g_store;
 static EvtStore* evtStore() { return &g_store; }
 static bool book(const TTree& t) { g_trees[t.name] = new TTree(t); return true; }
 static TTree* tree(const char* n) { return g_trees.at(n); }
-#define ANA_CHECK(x) do { if (!(x)) { g_status = 1; return; } } while (0)
+struct StatusCode { enum V { SUCCESS, FAILURE } v; StatusCode(V x) : v(x) {} };
+#define ANA_CHECK(x) do { if (!(x)) { g_status = 1; return StatusCode::FAILURE; } } while (0)
 """
     else:
         for t in qgen.COLLS.values():
@@ -151,8 +152,13 @@ def program(backend: str, r: Dict[str, Any], events: List[Dict[str, Any]]) -> st
     ns = NS[backend]
     src = header(backend)
     src += "\n// ---- class-level declarations\n" + "".join(x if isinstance(x, str) else " ".join(x) for x in r["class_decl"]) + "\n"
-    src += "static void book_all()\n" + "\n".join(r["book"]) + "\n"
-    src += "static void execute()\n" + "\n".join(r["query"]) + "\n"
+    # as in the templates: ATLAS initialize()/execute() return a StatusCode, CMS beginJob/analyze are void
+    if backend == "atlas":
+        src += "static StatusCode book_all() {\n" + "\n".join(r["book"]) + "\nreturn StatusCode::SUCCESS;\n}\n"
+        src += "static StatusCode execute() {\n" + "\n".join(r["query"]) + "\nreturn StatusCode::SUCCESS;\n}\n"
+    else:
+        src += "static void book_all()\n" + "\n".join(r["book"]) + "\n"
+        src += "static void execute()\n" + "\n".join(r["query"]) + "\n"
     src += "int main() {\n  book_all();\n"
     for k, ev in enumerate(events):
         src += "  {\n"
@@ -226,4 +232,5 @@ def num_eq(cxx: str, lean_num: str) -> bool:
         return False
     if len(a) != len(b):
         return False
-    return all((x == y) or (x != x and y != y) or abs(x - y) <= 1e-9 * max(1.0, abs(x), abs(y)) for x, y in zip(a, b))
+    # the Lean driver prints doubles with 6 decimals (C's %f): equal up to that rendering
+    return all((x == y) or (x != x and y != y) or abs(x - y) <= 6e-7 + 1e-9 * max(abs(x), abs(y)) for x, y in zip(a, b))
